@@ -326,6 +326,8 @@ CallEffect(W, S, ev) == [S EXCEPT !.vals = ev.post.v, !.sz = ev.post.sz]
 \* out = 1 ok, 0 SolveFailure, 2 other exception.  The pins are extra inline equalities, so a row
 \* is ok iff the hard constraints hold for the current state with the pinned values substituted
 \* (all used-random scalars must be pinned: rows_pin_all_random).
+\* a pinned value is logged as an unsigned number, or - for fields too wide for TLC integers (ev.wide) - as a bit vector
+RowVal(ev, x, w) == IF "wide" \in DOMAIN ev /\ ev.wide THEN x ELSE NatBits(x, w)
 ProbeClauses(W, S, ev) ==
   LET call  == ev.call
       roots == SeqSet(call.roots)
@@ -333,11 +335,11 @@ ProbeClauses(W, S, ev) ==
       k     == Len(ev.paths)
       envOf(r) == [x \in DOMAIN S.vals |->
                      IF \E j \in 1..k : ev.paths[j] = x
-                     THEN NatBits(r[CHOOSE j \in 1..k : ev.paths[j] = x], TypeOfPath(W, x).w)
+                     THEN RowVal(ev, r[CHOOSE j \in 1..k : ev.paths[j] = x], TypeOfPath(W, x).w)
                      ELSE S.vals[x]]
       \* a pinned non-random path can only be satisfied by its current value
       pinsOK(r) == \A j \in 1..k : ev.paths[j] \in used
-                       \/ NatBits(r[j], TypeOfPath(W, ev.paths[j]).w) = S.vals[ev.paths[j]]
+                       \/ RowVal(ev, r[j], TypeOfPath(W, ev.paths[j]).w) = S.vals[ev.paths[j]]
       expect(r) == IF ~pinsOK(r) THEN "F" ELSE HardAll(W, S, call, envOf(r), S.sz)
   IN
   [ rows_pin_all_random |-> used \subseteq SeqSet(ev.paths),
@@ -446,10 +448,10 @@ ProbeDiag(W, S, ev) ==
       k     == Len(ev.paths)
       envOf(r) == [x \in DOMAIN S.vals |->
                      IF \E j \in 1..k : ev.paths[j] = x
-                     THEN NatBits(r[CHOOSE j \in 1..k : ev.paths[j] = x], TypeOfPath(W, x).w)
+                     THEN RowVal(ev, r[CHOOSE j \in 1..k : ev.paths[j] = x], TypeOfPath(W, x).w)
                      ELSE S.vals[x]]
       pinsOK(r) == \A j \in 1..k : ev.paths[j] \in used
-                       \/ NatBits(r[j], TypeOfPath(W, ev.paths[j]).w) = S.vals[ev.paths[j]]
+                       \/ RowVal(ev, r[j], TypeOfPath(W, ev.paths[j]).w) = S.vals[ev.paths[j]]
       expect(r) == IF ~pinsOK(r) THEN "F" ELSE HardAll(W, S, call, envOf(r), S.sz)
       bad == {i \in 1..Len(ev.rows) : LET h == expect(ev.rows[i]) IN
                   ~(h = "U" \/ (ev.rows[i][k + 1] = 1) = (h = "T"))}
